@@ -513,11 +513,103 @@ def _own(n):
     return ast.walk(a)
 
 
+def _pattern_provenance(m, fn, e, depth=0, seen=None):
+    """("safe" | "unsafe" | "unknown", culprit text) for an expression that ends up as (part of) a glob pattern: safe = string
+    literals, the GLOB_* constants of list_drf, glob.escape(...), and joins / sums / tuples of safe parts; a local is what its
+    definitions are; a parameter is what the call sites in the module pass (extra positional arguments for *args); unsafe =
+    data from outside (a parameter of a public function, an attribute of self) reaching the pattern unescaped."""
+    seen = seen if seen is not None else set()
+
+    def comb(parts):
+        res = [r_ for r_ in parts]
+        for r_ in res:
+            if r_[0] == "unsafe":
+                return r_
+        for r_ in res:
+            if r_[0] == "unknown":
+                return r_
+        return ("safe", "")
+    if isinstance(e, ast.Constant) and isinstance(e.value, str):
+        return ("safe", "")
+    if isinstance(e, ast.Starred):
+        return _pattern_provenance(m, fn, e.value, depth, seen)
+    d = pyfront.dotted(e) or ""
+    if d.startswith("list_drf.GLOB_") or d.startswith("GLOB_"):
+        return ("safe", "")
+    if isinstance(e, ast.Call):
+        cn = pyfront.call_name(e) or ""
+        if cn == "glob.escape":
+            return ("safe", "")
+        if cn in ("os.path.join", "tuple", "list"):
+            return comb([_pattern_provenance(m, fn, a_, depth, seen) for a_ in e.args])
+        if isinstance(e.func, ast.Attribute) and e.func.attr in ("replace", "format", "rstrip", "lstrip", "strip"):
+            return comb([_pattern_provenance(m, fn, e.func.value, depth, seen)] + [_pattern_provenance(m, fn, a_, depth, seen) for a_ in e.args
+                                                                                       if not isinstance(a_, ast.Constant)])
+        # any other call: data flows through it (abspath, normpath, str, sorted ...); what it adds is not known
+        recv = [e.func.value] if isinstance(e.func, ast.Attribute) and not cn.startswith(("os.", "glob.", "re.", "np.")) else []
+        inner = comb([_pattern_provenance(m, fn, a_, depth, seen) for a_ in recv + list(e.args) + [k_.value for k_ in e.keywords]] or [("unknown", cn)])
+        return inner if inner[0] == "unsafe" else ("unknown", norm(ast.unparse(e))[:40])
+    if isinstance(e, (ast.ListComp, ast.GeneratorExp, ast.SetComp)):
+        return comb([_pattern_provenance(m, fn, e.elt, depth, seen)] + [_pattern_provenance(m, fn, g_.iter, depth, seen) for g_ in e.generators])
+    if isinstance(e, ast.Subscript):
+        return _pattern_provenance(m, fn, e.value, depth, seen)
+    if isinstance(e, ast.IfExp):
+        return comb([_pattern_provenance(m, fn, e.body, depth, seen), _pattern_provenance(m, fn, e.orelse, depth, seen)])
+    if isinstance(e, (ast.Tuple, ast.List)):
+        return comb([_pattern_provenance(m, fn, x, depth, seen) for x in e.elts])
+    if isinstance(e, ast.BinOp) and isinstance(e.op, ast.Add):
+        return comb([_pattern_provenance(m, fn, e.left, depth, seen), _pattern_provenance(m, fn, e.right, depth, seen)])
+    if isinstance(e, ast.Attribute):
+        if isinstance(e.value, ast.Name) and e.value.id == "self":
+            return ("unsafe", norm(ast.unparse(e)))
+        return ("unknown", norm(ast.unparse(e))[:40])
+    if isinstance(e, ast.Name):
+        key = (id(fn), e.id)
+        if key in seen or depth > 4:
+            return ("unknown", e.id)
+        seen = seen | {key}
+        params = [a_.arg for a_ in fn.args.args + fn.args.kwonlyargs]
+        var = fn.args.vararg.arg if fn.args.vararg else None
+        defs = [a_.value for a_ in pyfront.walk_no_nested(fn) if isinstance(a_, ast.Assign) and any(
+            isinstance(t, ast.Name) and t.id == e.id for t in a_.targets)]
+        loop_targets = [lp for lp in pyfront.walk_no_nested(fn) if isinstance(lp, (ast.For, ast.comprehension)) and any(
+            isinstance(x, ast.Name) and x.id == e.id for x in ast.walk(lp.target))]
+        parts = [_pattern_provenance(m, fn, d_, depth + 1, seen) for d_ in defs]
+        for lp in loop_targets:
+            parts.append(_pattern_provenance(m, fn, lp.iter, depth + 1, seen))
+        if e.id in params or e.id == var:
+            private = fn.name.startswith("_") and not fn.name.startswith("__")
+            sites = []
+            for q2, f2 in m.functions.items():
+                for c in pyfront.walk_no_nested(f2):
+                    if isinstance(c, ast.Call) and (pyfront.call_name(c) or "").split(".")[-1] == fn.name:
+                        sites.append((f2, c))
+            if not private or not sites:
+                parts.append(("unsafe", e.id) if not defs else ("unknown", e.id))
+            else:
+                pos = [p_ for p_ in params if p_ != "self"]
+                for f2, c in sites:
+                    if e.id == var:
+                        extra = c.args[len(pos):]
+                        parts += [_pattern_provenance(m, f2, a_, depth + 1, seen) for a_ in extra]
+                    else:
+                        k_ = pos.index(e.id) if e.id in pos else None
+                        arg = c.args[k_] if k_ is not None and k_ < len(c.args) else pyfront.kwarg(c, e.id)
+                        if arg is None:
+                            continue
+                        parts.append(_pattern_provenance(m, f2, arg, depth + 1, seen))
+        if not parts:
+            return ("unknown", e.id)
+        return comb(parts)
+    return ("unknown", norm(ast.unparse(e))[:40])
+
+
 def r9_directory_names_are_not_patterns(repo=None, rid="C08.R9", modules=("digital_rf_hdf5", "digital_metadata")):
     """The reader finds channels, properties files and data files with glob.glob on `os.path.join(<directory>, ..., <pattern>)`.
     A directory name is data, not a pattern: `ch[1]` as pattern text matches `ch1`, so the channel is read with another channel's
-    rate and cadences (bounds right, every read empty).  Every component of the joined path other than the pattern constants
-    of list_drf and string literals is wrapped in glob.escape (alone or as part of an escaped join)."""
+    rate and cadences (bounds right, every read empty).  Provenance of every pattern given to glob.glob (through locals, helper
+    parameters and their call sites): it is made of string literals, the GLOB_* constants of list_drf and glob.escape(...) only;
+    a parameter of a public function or an attribute of the reader object that reaches it unescaped is reported."""
     r = Rule(rid, "directory names never reach glob.glob as pattern text (glob.escape on every variable path component)")
     n = 0
     for mod_name in modules:
@@ -529,33 +621,17 @@ def r9_directory_names_are_not_patterns(repo=None, rid="C08.R9", modules=("digit
                 if not (isinstance(c, ast.Call) and pyfront.call_name(c) == "glob.glob" and c.args):
                     continue
                 n += 1
-                a = c.args[0]
-                comps = list(a.args) if isinstance(a, ast.Call) and pyfront.call_name(a) == "os.path.join" else [a]
-                bad = []
-                for x in comps:
-                    if isinstance(x, ast.Constant) and isinstance(x.value, str):
-                        continue
-                    d = pyfront.dotted(x) or ""
-                    if d.startswith("list_drf.GLOB_") or d.startswith("GLOB_"):
-                        continue
-                    if isinstance(x, ast.Call) and pyfront.call_name(x) == "glob.escape":
-                        continue
-                    if isinstance(x, ast.Name):
-                        # a local built from pattern constants only (e.g. GLOB_DRFFILE.replace("*", "rf", 1))
-                        defs = [a_.value for a_ in pyfront.walk_no_nested(f) if isinstance(a_, ast.Assign) and any(
-                            isinstance(t, ast.Name) and t.id == x.id for t in a_.targets)]
-                        if defs and all("GLOB_" in ast.unparse(d_) and not any(isinstance(y, ast.Name) and y.id not in ("list_drf",)
-                                        for y in ast.walk(d_)) for d_ in defs):
-                            continue
-                    bad.append(x)
+                verdict, culprit = _pattern_provenance(m, f, c.args[0])
                 site = "%s:%s %s `%s`" % (m.rel, c.lineno, q, norm(ast.unparse(c))[:70])
-                if bad:
+                if verdict == "unsafe":
                     r.violation(m.rel, q, norm(ast.unparse(c))[:90], "the path component `%s` is taken as pattern text: a directory named "
                                 "`ch[1]` matches `ch1`, so one channel is found, or read with the properties of, another (bounds right, "
-                                "every read empty; a top-level directory `rec[1]` cannot be opened at all)" % norm(ast.unparse(bad[0]))[:40],
+                                "every read empty; a top-level directory `rec[1]` cannot be opened at all)" % culprit[:40],
                                 line=c.lineno)
+                elif verdict == "unknown":
+                    raise AnalysisError("%s: provenance of the glob pattern `%s` not resolved (at `%s`)" % (q, norm(ast.unparse(c.args[0]))[:50], culprit))
                 else:
-                    r.ok(site, "variable path components are escaped; the pattern part is a constant of the listing grammar")
+                    r.ok(site, "the pattern is made of literals, GLOB_* constants and glob.escape()d path components only")
     if n < 3:
         raise AnalysisError("only %d glob.glob calls found in the reader modules (6 confirmed on the reference tree)" % n)
     r.guard(3)
